@@ -229,3 +229,69 @@ Example c01_float_nonvacuous_2 :
 Proof. exact Proofs.PolyFloat.ex_eval_hyps_2. Qed.
 Example c01_float_nonvacuous_powi : powi_no_underflow ex_x2 (Z.of_nat 5).
 Proof. exact Proofs.PolyFloat.ex_powi_hyp. Qed.
+
+(* ---- the decimal reading of coefficients by the FLOAT instance is the correctly rounded value (Proofs/DecFloat.v) ----
+   The parsers read "3.25", "0.1" as an exact decimal m * 10^e and hand it to [nofdec]; for [FNum] this is
+   [dec2float m e] (Base/Num.v: exact integer for e >= 0; for e < 0 a quotient of at least 65 bits plus a sticky bit,
+   then one rounding to nearest even).  It is now PROVED to be the correctly rounded value, which is what Rust's
+   [str::parse::<f64>] specifies (sticky bit = rounding to odd, then Flocq's [round_N_odd]).  So the chain
+   text -> exact decimal (parse theorems above) -> float coefficient (here) -> evaluation (c01_eval_simple_float_error)
+   has a theorem at every link.
+   [dec_val m e] = IZR m * powerRZ 10 e is the exact real; the side condition is Flocq's no-overflow condition. *)
+From SV Require Import Proofs.DecFloat.
+
+Theorem c01_dec_val_eq : forall m e : Z, dec_val m e = (IZR m * powerRZ 10 e)%R.
+Proof. exact Proofs.DecFloat.dec_val_eq. Qed.
+Check c01_dec_val_eq : forall m e : Z, dec_val m e = (IZR m * powerRZ 10 e)%R.
+Print Assumptions c01_dec_val_eq.
+
+Theorem c01_dec2float_correct : forall m e : Z,
+  (0 < m)%Z ->
+  (Rabs (round radix2 (FLT_exp (-1074) 53) ZnearestE (dec_val m e)) < bpow radix2 1024)%R ->
+  is_finite (Prim2B (dec2float m e)) = true /\
+  B2R (Prim2B (dec2float m e)) = round radix2 (FLT_exp (-1074) 53) ZnearestE (dec_val m e).
+Proof. exact Proofs.DecFloat.dec2float_correct. Qed.
+Check c01_dec2float_correct : forall m e : Z,
+  (0 < m)%Z ->
+  (Rabs (round radix2 (FLT_exp (-1074) 53) ZnearestE (dec_val m e)) < bpow radix2 1024)%R ->
+  is_finite (Prim2B (dec2float m e)) = true /\
+  B2R (Prim2B (dec2float m e)) = round radix2 (FLT_exp (-1074) 53) ZnearestE (dec_val m e).
+Print Assumptions c01_dec2float_correct.
+
+(* above the subnormal range the coefficient read is within one unit roundoff of the decimal *)
+Theorem c01_dec2float_rel_error : forall m e : Z,
+  (0 < m)%Z ->
+  (Rabs (round radix2 (FLT_exp (-1074) 53) ZnearestE (dec_val m e)) < bpow radix2 1024)%R ->
+  (bpow radix2 (-1022) <= dec_val m e)%R ->
+  (Rabs (B2R (Prim2B (dec2float m e)) - dec_val m e) <= bpow radix2 (-53) * dec_val m e)%R.
+Proof. exact Proofs.DecFloat.dec2float_rel_error. Qed.
+Check c01_dec2float_rel_error : forall m e : Z,
+  (0 < m)%Z ->
+  (Rabs (round radix2 (FLT_exp (-1074) 53) ZnearestE (dec_val m e)) < bpow radix2 1024)%R ->
+  (bpow radix2 (-1022) <= dec_val m e)%R ->
+  (Rabs (B2R (Prim2B (dec2float m e)) - dec_val m e) <= bpow radix2 (-53) * dec_val m e)%R.
+Print Assumptions c01_dec2float_rel_error.
+
+(* the no-overflow side condition follows from 0 <= v <= 2^1023 *)
+Theorem c01_dec_no_overflow : forall v : R,
+  (0 <= v <= bpow radix2 1023)%R ->
+  (Rabs (round radix2 (FLT_exp (-1074) 53) ZnearestE v) < bpow radix2 1024)%R.
+Proof. exact Proofs.DecFloat.dec_no_overflow. Qed.
+Check c01_dec_no_overflow : forall v : R,
+  (0 <= v <= bpow radix2 1023)%R ->
+  (Rabs (round radix2 (FLT_exp (-1074) 53) ZnearestE v) < bpow radix2 1024)%R.
+Print Assumptions c01_dec_no_overflow.
+
+(* non-vacuity: 0.1 = dec_val 1 (-1) satisfies every hypothesis; computed sanity values (0.1, 3.25, and 5e-324 which
+   rounds to the smallest subnormal) *)
+Example c01_dec_nonvacuous :
+  (0 < 1)%Z /\
+  (Rabs (round radix2 (FLT_exp (-1074) 53) ZnearestE (dec_val 1 (-1))) < bpow radix2 1024)%R /\
+  (bpow radix2 (-1022) <= dec_val 1 (-1))%R.
+Proof. exact Proofs.DecFloat.ex_dec_hyps. Qed.
+Example c01_dec2float_tenth : dec2float 1 (-1) = (0x1.999999999999ap-4)%float.
+Proof. vm_compute. reflexivity. Qed.
+Example c01_dec2float_3_25 : dec2float 325 (-2) = (0x1.ap+1)%float.
+Proof. vm_compute. reflexivity. Qed.
+Example c01_dec2float_min_subnormal : dec2float 5 (-324) = (0x0.0000000000001p-1022)%float.
+Proof. vm_compute. reflexivity. Qed.
